@@ -19,29 +19,38 @@ CONFIGS = {
     # (MIN, SIZE, J, with_close, K)
     # the last flag: a quiescent state with every job served must be reachable within K (vacuity guard for the
     # at-quiescence assertions); configurations without it still catch lost wake-ups, which quiesce early
+    # optional 7th member True: close() may start at any moment, also while connections are still being submitted
     "quick": [(1, 1, 1, False, 32, True), (1, 1, 2, False, 44, True), (1, 2, 2, False, 50, True),
-              (1, 1, 1, True, 50, True), (1, 2, 1, True, 50, True)],
+              (1, 1, 1, True, 50, True), (1, 2, 1, True, 50, True), (1, 1, 1, True, 44, False, True), (1, 2, 1, True, 44, False, True)],
     "thorough": [(1, 1, 1, False, 36, True), (1, 1, 2, False, 56, True), (1, 2, 2, False, 56, True), (2, 2, 2, False, 52, True),
                  (1, 3, 3, False, 48, False), (2, 3, 3, False, 44, False), (1, 2, 3, False, 48, False),
-                 (1, 1, 1, True, 54, True), (1, 2, 2, True, 58, False), (2, 2, 2, True, 52, False)],
+                 (1, 1, 1, True, 54, True), (1, 2, 2, True, 58, False), (2, 2, 2, True, 52, False),
+                 (1, 1, 1, True, 50, False, True), (1, 2, 1, True, 50, False, True), (1, 2, 2, True, 54, False, True)],
 }
 
 
 def _run_config(args):
     from symbmc import pool, replay_pool
     cfg, known_active = args
-    MIN, SIZE, J, wc, K, needq = cfg
+    MIN, SIZE, J, wc, K, needq = cfg[:6]
+    race = len(cfg) > 6 and cfg[6]
     res = {"config": cfg, "knowns": [], "violation": None, "errors": [], "inconclusive": [], "runs": []}
     t0 = time.time()
     try:
         if needq:
-            reach = pool.reach_quiescence(MIN, SIZE, J, wc, K)
+            # the bound grows with the code under test: K is raised until a quiescent all-served state is reachable
+            reach = None
+            for K in (K, K + 8, K + 16, K + 28):
+                reach = pool.reach_quiescence(MIN, SIZE, J, wc, K, race)
+                if reach == "sat":
+                    break
             res["quiescence_reachable"] = reach
+            res["K"] = K
             if reach != "sat":
                 res["errors"].append("vacuity guard: no quiescent all-served state reachable within K=%d (%s)" % (K, reach))
         exclude = []
         for _ in range(4):
-            out, _ = pool.check(MIN, SIZE, J, wc, K, exclude=tuple(exclude))
+            out, _ = pool.check(MIN, SIZE, J, wc, K, exclude=tuple(exclude), race=race)
             res["runs"].append({"result": out["result"], "wall_s": round(out["wall_s"], 2), "assertions": out["assertions"],
                                 "nodes": out["nodes"], "threads": out["threads"], "excluded": list(exclude)})
             res["encoded"] = out["encoded"]
@@ -71,9 +80,14 @@ def _run_config(args):
 
 
 def EXTRA(tier, seed):
+    return pool_extra("C18", CONFIGS[tier])
+
+
+def pool_extra(pid, cfgs):
+    """the schedule check of the worker pool, reported under property `pid` (C05 and C13 use a subset of the configurations for
+    their own clauses: no stranded worker / the worker slot of an ended connection is released)"""
     from pysym import check as C
-    known = C.load_known("C18")
-    cfgs = CONFIGS[tier]
+    known = C.load_known(pid)
     ctx = mp.get_context("fork")
     with ctx.Pool(min(len(cfgs), 12)) as p:
         results = p.map(_run_config, [(c, tuple(known.keys())) for c in cfgs])
@@ -83,8 +97,10 @@ def EXTRA(tier, seed):
     encoded = {}
     os.makedirs(os.path.join(C.OUT, "replays"), exist_ok=True)
     for i, r in enumerate(results):
-        MIN, SIZE, J, wc, K, needq = r["config"]
-        print("[C18/symbmc] MIN=%d SIZE=%d jobs=%d close=%s K=%d: %s wall=%.1fs" % (
+        MIN, SIZE, J, wc, K, needq = r["config"][:6]
+        K = r.get("K", K)
+        wc = "racing" if len(r["config"]) > 6 and r["config"][6] else wc
+        print("[" + pid + "/symbmc] MIN=%d SIZE=%d jobs=%d close=%s K=%d: %s wall=%.1fs" % (
             MIN, SIZE, J, wc, K, [x["result"] for x in r["runs"]], r["wall_s"]), flush=True)
         out["errors"].extend(r["errors"])
         out["inconclusive"].extend(r["inconclusive"])
@@ -99,10 +115,10 @@ def EXTRA(tier, seed):
                             "replay_on_real_threads": k["violation"]["replay"]})
         if r["violation"]:
             v = r["violation"]
-            path = os.path.join(C.OUT, "replays", "C18-symbmc-%d.json" % i)
-            json.dump({"property": "C18", "engine": "symbmc", "target": "pool", "config": r["config"], "label": v["label"],
+            path = os.path.join(C.OUT, "replays", "%s-symbmc-%d.json" % (pid, i))
+            json.dump({"property": pid, "engine": "symbmc", "target": "pool", "config": r["config"], "label": v["label"],
                        "schedule": v["schedule"], "model_lines": v["model_lines"]}, open(path, "w"), indent=1)
-            out["lines"].append("VIOLATION property=C18 replay=%s" % path)
+            out["lines"].append("VIOLATION property=%s replay=%s" % (pid, path))
             out["lines"].append("  '%s' violated at step %d for MIN=%d SIZE=%d jobs=%d close=%s; the schedule reproduces on the real Pool with real threads: %r"
                                 % (v["label"], v["step"], MIN, SIZE, J, wc, v["replay"]))
             out["violations"] += 1
@@ -114,6 +130,6 @@ def EXTRA(tier, seed):
                                   "functions_encoded": encoded}}
     out["assumptions"] = ["statement-level atomicity (CPython GIL: one container method call is atomic)",
                           "a job's execution is one atomic step of its worker (other threads interleave before and after it)",
-                          "pool.close() is only started after the last submission (close racing with process is outside the quantifier)",
+                          "pool.close() starts after the last submission, except in the configurations marked racing, where it may start at any moment",
                           "schedules of at most K statements; thread counts and job counts as listed"]
     return out
